@@ -713,8 +713,9 @@ func ruleN7(c *Ctx) {
 		var cl *ssa.Function
 		eachInstr(dec, func(in ssa.Instruction) {
 			if d, ok := in.(*ssa.Defer); ok {
-				if mc, ok := d.Call.Value.(*ssa.MakeClosure); ok {
-					cl = mc.Fn.(*ssa.Function)
+				// a function literal, or a named function/method that is deferred
+				if body := deferredBody(d); body != nil {
+					cl = body
 				}
 			}
 		})
